@@ -409,5 +409,6 @@ def run(ctx):
     tag_seq(ctx, prog)
 
     from engine.run import borrow
+    borrow(ctx, 'C10', ['CHANNEL-LIMIT'], 'a file with the largest channel count sf_format_check accepts must re-open: a reader with a smaller limit refuses what was written')
     borrow(ctx, 'C01', ['FLUSH-PENDING'], 'an extra padding block appended at close makes the closed file report more frames than were written')
 
